@@ -18,6 +18,7 @@ PROP = {
              "Non-trivial: a look-up of a transaction whose pin is live, with >=1 successful reload and >=1 vacuum pass since its request "
              "(burst: a live-pin look-up that observed an older version than the current one after >=1 vacuum pass). distinct = canonical JSON of the history"),
     "assumptions": [
+        "transaction ids come again (x-lunar-req-id is client text; retried calls re-send it): event 'reuse' is a new transaction with the id of an earlier one, once the retention plus a vacuum period (30 s + 5 s + 1 s) have passed since that one's request or since any look-up of the id from its retention instant on (such a look-up may anchor the id afresh) - before that it counts as a further response; one history in six starts with 'request, reload, late response, the id again at +36 s, reload, response 10-24 s later', which must be given the version of the second request",
         "the gateway's log level (LOG_LEVEL: off in three cases of eight, else error / info / debug / trace; what is logged is thrown away, what a log statement does to build its arguments happens) is a generated part of every case of TestHistories: no answer may depend on it; a failing case reports its level",
         "transaction ids are unique per transaction (HAProxy unique-id); two *first* look-ups of the same id never race (the request is handled before its response exists)",
         "retention period = 30 s as the statement's quantifier says; it is not read from the code. At exactly request+30 s, and later, the pinned version, the current one or any version created in between is accepted (statement silent); nothing else, in particular never the empty fallback",
